@@ -266,6 +266,27 @@ int main(int argc, char* argv[])
     const auto functions = function_t::make(config);
     config.m_smoothness  = smoothness::yes;
     const auto smooth_functions = function_t::make(config);
+    // (function_t::make only instantiates dims 1, 2, 3, 4, 8, 16, 32: add every other dimension up to 32, with other summand counts)
+    auto functions_x = function_t::make(config);
+    functions_x.clear();
+    for (const auto& fid : function_t::all().ids())
+    {
+        for (int k = 0; k < 2; ++k)
+        {
+            const auto proto = function_t::all().get(fid);
+            try
+            {
+                auto f = proto->make(rng.range(1, 32), rng.range(5, 40));
+                if (f)
+                {
+                    functions_x.push_back(std::move(f));
+                }
+            }
+            catch (const std::exception&)
+            {
+            }
+        }
+    }
     const auto solver_ids       = solver_t::all().ids();
     const auto ls0_ids          = lsearch0_t::all().ids();
     const auto lsk_ids          = lsearchk_t::all().ids();
@@ -277,7 +298,7 @@ int main(int argc, char* argv[])
         const auto& id     = solver_ids[static_cast<size_t>((i + static_cast<int64_t>(seed)) % static_cast<int64_t>(solver_ids.size()))];
         auto        solver = solver_t::all().get(id);
         const auto  eps    = std::pow(10.0, rng.uniform(-10.0, -2.0));
-        const auto  evals  = rng.pick(std::vector<int64_t>{10, 11, 20, 50, 100, 333, 1000, 5000});
+        const auto  evals  = rng.coin(1, 4) ? rng.pick(std::vector<int64_t>{10, 11, 5000}) : static_cast<int64_t>(std::pow(10.0, rng.uniform(1.0, 3.699)));
         solver->parameter("solver::epsilon")   = eps;
         solver->parameter("solver::max_evals") = evals;
         run_cfg_t rc;
@@ -299,7 +320,8 @@ int main(int argc, char* argv[])
         }
         else
         {
-            function = functions[static_cast<size_t>(rng.range(0, static_cast<int64_t>(functions.size()) - 1))].get();
+            const auto& pool = (rng.coin() && !functions_x.empty()) ? functions_x : functions;
+            function = pool[static_cast<size_t>(rng.range(0, static_cast<int64_t>(pool.size()) - 1))].get();
         }
         const auto radius = std::pow(10.0, rng.uniform(-3.0, 1.0));
         run(*solver, *function, random_x0(rng, function->size(), radius), rc, icase++,
@@ -324,13 +346,24 @@ int main(int argc, char* argv[])
         const auto ls0 = rng.pick(ls0_ids), lsk = rng.pick(lsk_ids);
         solver->lsearch0(ls0);
         solver->lsearchk(lsk);
-        const auto c1 = std::pow(10.0, rng.uniform(-6.0, -0.5));
-        const auto c2 = c1 + (1.0 - c1) * rng.uniform(0.05, 0.95);
+        // (c1, c2) anywhere in the parameter domain 0 < c1 < c2 < 1: mostly log-uniform small c1, sometimes c1 close to 1 or c2 close to c1 / 1
+        const auto c1 = rng.coin(1, 5) ? rng.uniform(0.3, 0.98) : std::pow(10.0, rng.uniform(-8.0, -0.5));
+        const auto c2 = c1 + (1.0 - c1) * (rng.coin(1, 5) ? rng.pick(std::vector<double>{1e-3, 0.999}) : rng.uniform(0.05, 0.95));
         solver->parameter("solver::tolerance") = std::make_tuple(c1, c2);
         run_cfg_t rc;
         rc.eps    = eps;
         rc.budget = false;
-        const auto& function = *smooth_functions[static_cast<size_t>(rng.range(0, static_cast<int64_t>(smooth_functions.size()) - 1))];
+        const function_t* pfunction = smooth_functions[static_cast<size_t>(rng.range(0, static_cast<int64_t>(smooth_functions.size()) - 1))].get();
+        for (int tries = 0; tries < 8 && rng.coin(); ++tries)
+        {
+            const auto& candidate = *functions_x[static_cast<size_t>(rng.range(0, static_cast<int64_t>(functions_x.size()) - 1))];
+            if (candidate.smooth())
+            {
+                pfunction = &candidate;
+                break;
+            }
+        }
+        const auto& function = *pfunction;
         run(*solver, function, random_x0(rng, function.size(), std::pow(10.0, rng.uniform(-2.0, 1.0))), rc, icase++,
             id + "/" + ls0 + "/" + lsk + " on " + function.name());
     }
